@@ -65,12 +65,24 @@ def _stub_world(w):
     w.module_overrides["subprocess"] = sp
 
 
+# The file-format properties say "decodes to exactly the traced constraint system": the traced system IS what these
+# backend operations build, so their contracts are obligations of the format property of their backend as well.
+FORMAT_PROP = {"pysnark.snarkjsbackend": "C10", "pysnark.zkinterface.backend": "C11", "pysnark.qaptools.backend": "C12"}
+
+
 class _Backend(Contract):
     layer = "backend"
     module = SNARKJS
     cprops = sprops = eprops = tprops = ()
-    vprops = ("C13",)
-    fprops = ("C13",)
+
+    @property
+    def vprops(self):
+        x = FORMAT_PROP.get(self.module)
+        return ("C13",) + ((x,) if x else ())
+
+    @property
+    def fprops(self):
+        return self.vprops
     guard_relevant = False
     prime = BN254_R
 
